@@ -39,6 +39,9 @@
  * length the name would have uncompressed on the wire (labels + length octets
  * + root octet).  out may be NULL (then out_cap is ignored: measure only). */
 static int dnsref_name_nptr; /* side result: pointers followed by the last dnsref_name() */
+static int dnsref_name_fwdptr; /* side result, cumulative: pointers whose target is not strictly before
+                                * the pointer itself (a compression pointer must refer to a PRIOR
+                                * occurrence, RFC 1035 4.1.4) */
 static int dnsref_name(const uint8_t *msg, int len, int start, char *out, int out_cap,
                        int *next, int *text_len, int *wire_len)
 {
@@ -58,6 +61,7 @@ static int dnsref_name(const uint8_t *msg, int len, int start, char *out, int ou
 			tgt = ((c & 0x3f) << 8) | msg[pos + 1];
 			if (after < 0) after = pos + 2;
 			if (tgt >= len) return DNSREF_MALFORMED;
+			if (tgt >= pos) dnsref_name_fwdptr++;
 			pos = tgt;
 			dnsref_name_nptr++;
 			continue;
